@@ -63,7 +63,7 @@ FOCUS = ("Prefer changes of these kinds, which have been under-explored so far: 
          "while the verdict stays right); (6) the serialisation direction rather than parsing. (7) places repaired recently, where a slip would be easy: ordering of dataclasses (`_make_ord`), `__setattr__` / the set-field record, "
          "`_annotated_converter`, `errors._show` and the union error node, `util._subscript` / `replace_typevars`, the converter cache key, "
          "`EnumConverter.into_data`, the `into_data` shortcut for scalars, named tuples in `make_converter`, `UnionConverter.into_data`'s fallback, "
-         "`ConverterHandlers.make`. Read the code you change carefully and make sure the existing 218 tests really still pass.")
+         "`ConverterHandlers.make`, the numpy addon's array constructors, `DatetimeConverter.from_datetime`, `WrongTypeError.__eq__`, `_make_eq` / `_compare`, `into_data`'s fallbacks in convert.py, named tuples, `UnionConverter.try_convert`, `try_convert_struct`'s defaults, `errors.ProductErrorNode.print_error`. Read the code you change carefully and make sure the existing 218 tests really still pass.")
 
 
 def used_ideas() -> list:
